@@ -875,9 +875,115 @@ def t_constname(fn):
     return True
 
 
+class _JoinWith(ast.NodeTransformer):
+    """`with A: with B as x: body` (nothing else in the outer body) -> `with A, B as x: body`"""
+    n = 0
+
+    def visit_With(self, node):
+        self.generic_visit(node)
+        if len(node.body) == 1 and isinstance(node.body[0], ast.With):
+            self.n += 1
+            inner = node.body[0]
+            return ast.copy_location(ast.With(items=node.items + inner.items, body=inner.body, type_comment=None), node)
+        return node
+
+    def visit_Lambda(self, node):
+        return node
+
+
+def t_joinwith(fn):
+    t = _JoinWith()
+    fn.body = [t.visit(s) for s in fn.body]
+    return t.n > 0
+
+
+def _first_stmt_call(fn, pred):
+    """(block, index, statement, call) of the first simple statement whose value is / contains at top level a call satisfying pred"""
+    def blocks(node):
+        for fld in ('body', 'orelse', 'finalbody'):
+            b = getattr(node, fld, None)
+            if isinstance(b, list) and b and isinstance(b[0], ast.stmt):
+                yield b
+                for st in b:
+                    if not isinstance(st, (ast.FunctionDef, ast.AsyncFunctionDef, ast.ClassDef)):
+                        yield from blocks(st)
+        for h in getattr(node, 'handlers', []) or []:
+            yield from blocks(h)
+    for b in blocks(fn):
+        for i, st in enumerate(b):
+            if isinstance(st, (ast.Assign, ast.Return, ast.Expr)) and isinstance(getattr(st, 'value', None), ast.Call) and pred(st.value):
+                return b, i, st, st.value
+    return None
+
+
+def t_methval(fn):
+    """`r = obj.attr.m(a, b)` -> `m_ = obj.attr.m` / `r = m_(a, b)` (first statement that is such a call; receiver a plain attribute chain)"""
+    used = {n.id for n in ast.walk(fn) if isinstance(n, ast.Name)} | {a.arg for a in ast.walk(fn) if isinstance(a, ast.arg)}
+
+    def pred(c):
+        f = c.func
+        if not isinstance(f, ast.Attribute):
+            return False
+        e = f.value
+        while isinstance(e, ast.Attribute):
+            e = e.value
+        return isinstance(e, ast.Name) and not any(isinstance(a, ast.Starred) for a in c.args)
+    hit = _first_stmt_call(fn, pred)
+    if hit is None:
+        return False
+    b, i, st, c = hit
+    nm = c.func.attr + '_method'
+    if nm in used:
+        return False
+    b.insert(i, ast.copy_location(ast.Assign(targets=[ast.Name(id=nm, ctx=ast.Store())], value=c.func, type_comment=None), st))
+    c.func = ast.copy_location(ast.Name(id=nm, ctx=ast.Load()), c)
+    return True
+
+
+def t_starcall(fn):
+    """`f(a, b, k=v)` -> `call_args = (a, b)` / `f(*call_args, k=v)` (first statement that is a call with >= 2 plain positional arguments)"""
+    used = {n.id for n in ast.walk(fn) if isinstance(n, ast.Name)} | {a.arg for a in ast.walk(fn) if isinstance(a, ast.arg)}
+    if 'call_args' in used:
+        return False
+
+    def pred(c):
+        # (the callee expression is evaluated before the arguments: it must be free of calls to be moved behind them)
+        return len(c.args) >= 2 and not any(isinstance(a, ast.Starred) for a in c.args) and \
+            not any(isinstance(x, (ast.Call, ast.Subscript)) for x in ast.walk(c.func))
+    hit = _first_stmt_call(fn, pred)
+    if hit is None:
+        return False
+    b, i, st, c = hit
+    b.insert(i, ast.copy_location(ast.Assign(targets=[ast.Name(id='call_args', ctx=ast.Store())], value=ast.Tuple(elts=list(c.args), ctx=ast.Load()),
+                                             type_comment=None), st))
+    c.args = [ast.Starred(value=ast.Name(id='call_args', ctx=ast.Load()), ctx=ast.Load())]
+    return True
+
+
+def t_namedcond(fn):
+    """`return A and B` / `x = A and B` with a call-free first operand -> `first_ok = A` / `return first_ok and B`"""
+    used = {n.id for n in ast.walk(fn) if isinstance(n, ast.Name)} | {a.arg for a in ast.walk(fn) if isinstance(a, ast.arg)}
+    if 'first_ok' in used:
+        return False
+    for b_owner in ast.walk(fn):
+        for fld in ('body', 'orelse', 'finalbody'):
+            b = getattr(b_owner, fld, None)
+            if not (isinstance(b, list) and b and isinstance(b[0], ast.stmt)):
+                continue
+            for i, st in enumerate(b):
+                v = getattr(st, 'value', None) if isinstance(st, (ast.Return, ast.Assign)) else None
+                if isinstance(v, ast.BoolOp) and len(v.values) >= 2 and not any(isinstance(x, (ast.Call, ast.Await, ast.Yield, ast.NamedExpr, ast.Lambda))
+                                                                              for x in ast.walk(v.values[0])):
+                    b.insert(i, ast.copy_location(ast.Assign(targets=[ast.Name(id='first_ok', ctx=ast.Store())], value=v.values[0], type_comment=None), st))
+                    v.values[0] = ast.copy_location(ast.Name(id='first_ok', ctx=ast.Load()), v)
+                    return True
+    return False
+
+
 KINDS = {'nestand': t_nestand, 'joinand': t_joinand, 'boolret': t_boolret, 'tokw': t_tokw, 'constname': t_constname, 'hoistattr0': t_hoistattr0, 'hoistattr1': t_hoistattr1, 'extract0': t_extract0, 'extract1': t_extract1, 'extract2': t_extract2, 'xtest0': t_xtest0, 'xtest1': t_xtest1, 'unpack': t_unpack,
          'plain': t_plain, 'rename': t_rename, 'swap': t_swap, 'flip': t_flip, 'alias': t_alias, 'early': t_early, 'demorgan': t_demorgan,
-         'comp2loop': t_comp2loop, 'forunpack': t_forunpack, 'ifexp': t_ifexp, 'hoist': t_hoist}
+         'comp2loop': t_comp2loop, 'forunpack': t_forunpack, 'ifexp': t_ifexp, 'hoist': t_hoist,
+         'joinwith': t_joinwith, 'methval': t_methval, 'starcall': t_starcall, 'namedcond': t_namedcond}
 
 
 # ------------------------------------------------------------------------ driver
